@@ -520,6 +520,11 @@ func ruleAdmissionThroughEntries(c *Check, w *World, tb *TB) {
 					if x.Op == "call" && x.Sym == QualName(inVal) {
 						return // the validator's own verdict
 					}
+					if cl, ok := x.Val.(*ssa.Call); ok && x.Op == "call" {
+						if g := cl.Call.StaticCallee(); g != nil && g != f && reach[g] && paramOfType(g, "OCRAInput") >= 0 {
+							return // the verdict of a function examined in its own right (derivation, validation core)
+						}
+					}
 					if x.String() == pstr {
 						mentions = true
 					}
